@@ -25,6 +25,8 @@ TC == [k |-> "C"]   TE == [k |-> "E"]
 \* occurs in the declarations of G only - never in the type of an expression)
 TG(a) == [k |-> "G", a |-> a]
 TIG == [k |-> "IG", a |-> [k |-> "int"]]
+\* ... and a class two levels below the class that binds the type variable (IG2(IG), IG(G[int])): nothing of its own is generic
+TIG2 == [k |-> "IG2", a |-> [k |-> "int"]]
 TVar == [k |-> "tvar"]
 \* user classes that can be iterated: Cd is its own iterator (__iter__ returns the class itself, __next__ gives int),
 \* Ws hands out an Iterator[str]
@@ -54,6 +56,7 @@ Describe(t) == CASE t.k = "list" -> "list<" \o Describe(t.e) \o ">"
                  [] t.k = "opt" -> "Union<" \o Describe(t.t) \o ", None>"
                  [] t.k = "optn" -> "Union<None, " \o Describe(t.t) \o ">"
                  [] t.k \in {"G", "IG"} -> t.k \o "<" \o Describe(t.a) \o ">"
+                 [] t.k = "IG2" -> "IG2"          \* tranp prints the arguments only for a class with a generic base of its own
                  [] OTHER -> t.k
 \* the type the VALUE has at run time (an alias is its target, an optional that holds a value is that value's type)
 RECURSIVE RunTime(_)
@@ -61,7 +64,7 @@ RunTime(t) == CASE t.k = "list" -> "list<" \o RunTime(t.e) \o ">"
                 [] t.k = "dict" -> "dict<str, " \o RunTime(t.v) \o ">"
                 [] t.k = "tuple" -> "tuple<" \o RunTime(t.a) \o ", " \o RunTime(t.b) \o ">"
                 [] t.k \in {"alias", "opt", "optn"} -> RunTime(t.t)
-                [] t.k \in {"G", "IG"} -> t.k \o "<" \o RunTime(t.a) \o ">"
+                [] t.k \in {"G", "IG", "IG2"} -> t.k \o "<" \o RunTime(t.a) \o ">"
                 [] OTHER -> t.k
 
 \* p = Python precedence level of the outermost construct (16 = atom / postfix chain)
@@ -81,7 +84,7 @@ Vars == { R("n", TInt), R("x", TFloat), R("b", TBool), R("s", TStr),
           R("xa", TAlias("Ints", TList(TInt))), R("rows", TAlias("Rows", TList(TList(TInt)))), R("da", TAlias("DS", TDict(TInt))),
           R("xo", TOpt(TList(TInt))), R("co", TOpt(TC)), R("lo", TOpt(TList(TC))),
           R("xn", TOptN(TList(TInt))), R("cn", TOptN(TC)), R("ln", TOptN(TList(TC))),
-          R("gi", TG(TInt)), R("gs", TG(TStr)), R("ig", TIG), R("cd", TCd), R("wz", TWs),
+          R("gi", TG(TInt)), R("gs", TG(TStr)), R("ig", TIG), R("ig2", TIG2), R("cd", TCd), R("wz", TWs),
           \* parameters that carry the names of library functions: a declaration in scope is found before the library
           R("id", TInt), R("max", TFloat), R("hash", TStr), R("iter", TList(TInt)), R("min", TC) }
 \* members of G: fields and methods whose declared types hold the type variable at depth 0, 1 and 2, under an optional
@@ -111,8 +114,8 @@ Step(S0) ==
   \cup {R(W(e, 16) \o ".m()", TStr) : e \in {z \in S : z.ref /\ z.ty.k = "C"}}
   \cup {R(W(e, 16) \o ".p", TList(TInt)) : e \in {z \in S : z.ref /\ z.ty.k = "C"}}
   \cup {R(W(e, 16) \o ".value", TInt) : e \in {z \in S : z.ref /\ z.ty.k = "E"}}
-  \cup {R(W(e, 16) \o "." \o f[1], Subst(f[2], e.ty.a)) : e \in {z \in S : z.ref /\ z.ty.k \in {"G", "IG"}}, f \in GFields}
-  \cup {R(W(e, 16) \o "." \o f[1] \o "()", Subst(f[2], e.ty.a)) : e \in {z \in S : z.ref /\ z.ty.k \in {"G", "IG"}}, f \in GMethods}
+  \cup {R(W(e, 16) \o "." \o f[1], Subst(f[2], e.ty.a)) : e \in {z \in S : z.ref /\ z.ty.k \in {"G", "IG", "IG2"}}, f \in GFields}
+  \cup {R(W(e, 16) \o "." \o f[1] \o "()", Subst(f[2], e.ty.a)) : e \in {z \in S : z.ref /\ z.ty.k \in {"G", "IG", "IG2"}}, f \in GMethods}
   \cup {X("[v for v in " \o W(e, 3) \o "]", e.ty) : e \in {z \in S : z.ty.k = "list"}}
   \* iteration through the iterator protocol of a user class: the element is what __next__ (or the Iterator) gives
   \cup {X("[v for v in " \o W(e, 3) \o "]", TList(Yields(e.ty))) : e \in {z \in S : z.ty.k \in {"Cd", "Ws"}}}
@@ -149,7 +152,7 @@ RECURSIVE Determined(_)
 Determined(t) == CASE t.k = "list" -> Determined(t.e) [] t.k = "dict" -> Determined(t.v)
                    [] t.k = "tuple" -> Determined(t.a) /\ Determined(t.b)
                    [] t.k \in {"alias", "opt", "optn"} -> Determined(t.t)
-                   [] t.k \in {"G", "IG"} -> Determined(t.a)
+                   [] t.k \in {"G", "IG", "IG2"} -> Determined(t.a)
                    [] OTHER -> t.k \in {"int", "float", "bool", "str", "C", "E", "Cd", "Ws"}
 Total == \A e \in Universe : Determined(e.ty)
 
